@@ -34,6 +34,7 @@ HI = datetime.date(2100, 12, 31).toordinal()
 ALPHABET = ['a', 'B', ':', ' ']
 ROOTS = ['Assets', 'Liabilities', 'Equity', 'Income', 'Expenses']
 INT32 = 2 ** 31
+JVM = ('-Xmx4g', '-XX:ParallelGCThreads=4')
 
 
 # ---------------------------------------------------------------------------------------------------------
@@ -279,6 +280,8 @@ class TLCPool:
         self.n += 1
         work = self.ctx.path('tlc-%s-%d' % (self.tag, self.n))
         kw.setdefault('timeout', self.ctx.pick(1800, 5400))
+        # small heaps / few GC threads: up to six TLC processes of this check run side by side
+        kw['jvm'] = tuple(kw.get('jvm', ())) + JVM
         fut = self.pool.submit(tlcmod.run, module, cfg, work, **kw)
         fut.meta = (module, cfg, leg)
         return fut
@@ -856,7 +859,7 @@ def replay(ctx, rep):
     w = TraceWriter(path, 10)
     w.add(case['f'], case['c'], [case['v']], obs)
     w.close()
-    res = ctx.tlc('Trace_C18', 'Trace_C18.cfg', leg='C2S', workers=1, env={'TRACE_FILE': path})
+    res = ctx.tlc('Trace_C18', 'Trace_C18.cfg', leg='C2S', workers=1, env={'TRACE_FILE': path}, jvm=JVM)
     rej = [p for p in res.printed if isinstance(p, dict) and p.get('verdict') == 'rejected']
     print('replay: SELECT %s FROM #cases with %r -> %r' % (form(case['f'], case['c'])[1], case['v'], obs[0]))
     if rej:
